@@ -741,6 +741,9 @@ class World:
             val = float(a["val"]["x"]) if a["val"]["d"] == "const" else 1.0
         else:
             val = materialize(a["val"], dims + 2 if ghosts else dims)
+            if a.get("dtype") == "int":
+                val = np.rint(val).astype(np.int64)
+                self.probes["var:integer-array-input" + (":with-ghosts" if ghosts else "")] += 1
         args = [ment.obj, val]
         origin = "default"
         if a.get("bc"):
@@ -1107,6 +1110,13 @@ class World:
                           {"var": vent.name, "want": texc})
             vent.meta["ghost_trusted"] = True
             ctx.i4.append(vent.name)
+            finite = M is not None and x_exp is not None and np.all(np.isfinite(x_exp))
+            if "I4" in self.inv and finite and not degenerate \
+                    and mode not in ("ext_mark", "ext_nan"):
+                self.check_interior_ghost_consistency(vent, M, RHS, x_exp, ctx)
+            if "I6" in self.inv and finite and not degenerate \
+                    and mode not in ("ext_mark", "ext_nan"):
+                self.check_step_equation(vent, twin, items, x_exp, ctx)
             if "I5" in self.inv:
                 self.check_solve_contract(vent, ret, M, RHS, x_exp, fake, mode, degenerate, ctx)
             elif self.prop == "C15" and M is not None and not degenerate:
@@ -1129,8 +1139,85 @@ class World:
             self.stats["fault-fired:singular"] += 1
             ctx.fault = ctx.fault or "singular"
         vent.meta["last_consume"] = self.step
-        ctx.written.add(vent.name)
+        if got[0] == "raise" and twin is not None and not degenerate:
+            # a failed call may refresh the target's derived state (ghosts, cached
+            # boundary term) but must not leave anything else in it, and must not
+            # touch the stored solution: the frame check judges the target too
+            pass
+        elif got[0] == "raise":
+            ctx.derived.add(vent.name)
+        else:
+            ctx.written.add(vent.name)
         ctx.i3.append(vent.name)
+
+    def check_interior_ghost_consistency(self, vent, M, RHS, x_exp, ctx):
+        """I4 (C03): the solved interior and the *reported* boundary values are
+        mutually consistent: the interior-cell equations hold with the ghost
+        values the variable now reports."""
+        ment = self.mesh_of(vent)
+        cls, faces = self.mesh_model(ment)
+        st = self.ents[vent.meta["bc"]].meta["state"]
+        for ax in range(len(faces)):
+            if O.axis_periodic(st, ax):
+                f = faces[ax]
+                if abs((f[1] - f[0]) - (f[-1] - f[-2])) > 1e-12 * abs(f[-1] - f[0]):
+                    return      # non-uniform periodic axis: not judged (DESIGN I4)
+        full = A.full_array(vent.obj).ravel()
+        if not np.all(np.isfinite(full)):
+            return
+        inner, _ = O.interior_index(ment.obj.dims)
+        r = np.abs(M @ full - RHS)[inner]
+        d = (abs(M) @ np.abs(full) + np.abs(RHS))[inner]
+        q = r / np.where(d > 0, d, 1.0)
+        res0 = O.backward_residual(M, RHS, x_exp)
+        self.oracle_runs["I4-consistency"] += 1
+        if q.size and not q.max() <= max(1e-9, 1e3 * res0):
+            nd = len(faces)
+            flags = "".join("P" if O.axis_periodic(st, ax) else "-" for ax in range(nd))
+            self.flag("C03", "I4", "%s/solve/interior-vs-reported-ghosts/%s" % (cls, flags),
+                      {"var": vent.name, "residual": float(q.max())})
+
+    def check_step_equation(self, vent, twin, items, x_exp_unused, ctx):
+        """I6 (C12): alpha*(new-old)/dt + (spatial terms) new = sources, with the
+        transient part re-derived by the harness from the inputs the user gave
+        to transientTerm."""
+        tr = [it for it in items if it[0] == "t" and "trans_model" in it[1].meta]
+        if not tr or twin is None:
+            return
+        pf = self.pf
+        ment = self.mesh_of(vent)
+        nd = len(ment.meta["faces"])
+        shp = tuple(int(d) + 2 for d in ment.obj.dims)
+        model_items = []
+        for it in items:
+            if it[0] != "t":
+                return
+            if "trans_model" in it[1].meta:
+                diag, rhs = it[1].meta["trans_model"]
+                # the user may have scribbled on the term object afterwards: then it
+                # is no longer the transient term and this oracle does not apply
+                if it[1].snap != it[1].meta.get("orig"):
+                    return
+                model_items.append(((sp.diags_array(diag, format="csr"), rhs), False, None))
+            else:
+                model_items.append((it[1].obj, it[2], it[3]))
+        try:
+            Mbc, Rbc = pf.boundaryConditionsTerm(twin.BCs)
+            M, RHS = O.assemble(Mbc, Rbc, model_items)
+            xe = _scipy_spsolve(M, RHS)
+        except Exception:
+            return
+        if not np.all(np.isfinite(xe)):
+            return
+        xe = np.reshape(xe, shp)
+        x_chk = np.array(xe, copy=True)
+        x_chk[(slice(1, -1),) * nd] = A.interior(vent.obj)
+        res = O.backward_residual(M, RHS, x_chk)
+        res0 = O.backward_residual(M, RHS, xe)
+        self.oracle_runs["I6-step-equation"] += 1
+        if res > max(1e-9, 1e3 * res0):
+            self.flag("C12", "I6", "transient/step-equation",
+                      {"var": vent.name, "residual": res, "reference_residual": res0})
 
     def check_solve_contract(self, vent, ret, M, RHS, x_exp, fake, mode, degenerate, ctx):
         """I5 (C04): identity, assembly, solveMatrixPDE equivalence, the seam."""
@@ -1642,6 +1729,7 @@ class World:
         rhs = np.zeros(n)
         rhs[inner] = (alpha * ve.meta["val"] / dt).ravel()
         M, R = e.obj
+        e.meta["trans_model"] = (diag, rhs)
         kindl = "field" if isinstance(al, str) else "scalar"
         if not O.mat_equal(M, sp.diags_array(diag, format="csr"), 1e-12):
             self.flag("C12", "I6", "transient/matrix/alpha-%s" % kindl, {"term": e.name})
